@@ -236,7 +236,7 @@ def _first_stmt(fnode):
 
 
 CLAIM = {
-    "text": "Decides that the value compared by each loop is the value recorded in the history and comes from the evidence state of the same iteration (standard: condition assigned only in consume_sample after state.increment with the documented form, appended to history['dlogZ']; importance: criterion := compute_stopping_criterion() after update_evidence and before update_history, list built by getattr over the configured criteria, history recorded by the same names); that the loop guards are the documented ones (while condition > tolerance strict, cap tested last; INS break test `reached_tolerance and iteration >= min_iteration` first, cap last; c <= t combined by any iff check_criteria=='any' else all); that finished runs short-circuit (first statement of both loops, finalise guarded / early-returning, finalised set on every path, no repopulation when finalised, remaining live points moved exactly once); and that each INS criterion is the documented expression (ratio, ratio_ns, ess, Z_err, fractional_error, log_dZ, evidence ratios).",
+    "text": "Decides that the value compared by each loop is the value recorded in the history and comes from the evidence state of the same iteration (standard: condition assigned only in consume_sample after state.increment with the documented form, appended to history['dlogZ']; importance: criterion := compute_stopping_criterion() after update_evidence and before update_history, list built by getattr over the configured criteria, history recorded by the same names); that the loop guards are the documented ones (while condition > tolerance strict, cap tested last; INS break test `reached_tolerance and iteration >= min_iteration` first, cap last; c <= t combined by any iff check_criteria=='any' else all); that finished runs short-circuit (first statement of both loops, finalise guarded / early-returning, finalised set on every path, no repopulation when finalised, remaining live points moved exactly once); and that each INS criterion is the documented expression (ratio, ratio_ns, ess, Z_err, fractional_error, log_dZ, evidence ratios). Criteria and tolerances are paired by position: the criteria are stored in the caller's order (outermost iteration over the caller's list), tolerances element-wise, count mismatch rejected.",
     "note": "Trajectories are not explored: 'stops at the first qualifying iteration' follows from the guard being evaluated every iteration, which is what is checked. Zero further likelihood evaluations on re-entry is decided as 'the finalised guard is the first statement'.",
 }
 
